@@ -22,6 +22,12 @@ func VerifControl(t TraceSentCache) (*VerifSentCacheCtl, bool) {
 	return &VerifSentCacheCtl{c}, true
 }
 
+// Same reports whether t is the cache this handle controls.
+func (v *VerifSentCacheCtl) Same(t TraceSentCache) bool {
+	c, ok := t.(*cuckooSentCache)
+	return ok && c == v.c
+}
+
 // StopDrainer terminates the goroutine that empties the dropped-ID add queue every 100µs of REAL
 // time (its `done` protocol is used, the queue itself stays open) and arms a fresh `done` so the real
 // Stop() keeps working. From then on IDs reach the filter only when Drain()/Maintain() is called.
